@@ -45,7 +45,9 @@ impl Ctx {
     }
 }
 
-pub const CFG: &str = if cfg!(feature = "cfg_std") {
+pub const CFG: &str = if cfg!(feature = "cfg_both") {
+    "both"
+} else if cfg!(feature = "cfg_std") {
     "std"
 } else if cfg!(feature = "cfg_alloc") {
     "alloc"
